@@ -201,7 +201,8 @@ func (i *Interpreter) Load(pathset string) error {
 }
 
 func (i *Interpreter) pushLoadedFragment(pathset string, units []parse.SourceUnit) error {
-	programInfo, err := analysis.AnalyzeAndCheckBounds(units, i.knownPredicates, analysis.ErrorForBoundsMismatch)
+	// Analysis may modify the map of extra predicates it is given, so it gets a copy.
+	programInfo, err := analysis.AnalyzeAndCheckBounds(units, copyDecls(i.knownPredicates), analysis.ErrorForBoundsMismatch)
 	if err != nil {
 		return err
 	}
@@ -305,7 +306,7 @@ func (i *Interpreter) Define(clauseText string) error {
 		return fmt.Errorf("parsing failed: %v", err)
 	}
 	i.resetInteractiveDefs(buffer)
-	programInfo, err := analysis.AnalyzeOneUnit(unit, i.knownPredicates)
+	programInfo, err := analysis.AnalyzeOneUnit(unit, copyDecls(i.knownPredicates))
 	if err != nil {
 		return fmt.Errorf("analysis failed: %v", err)
 	}
